@@ -341,6 +341,10 @@ class Oracle:
             return None
         if op == "jwths" and o["ok"] and c.get("hp") != c.get("pin"):
             return "jwt-hs:accepted-unpinned-header", "a token whose header is not the pinned one was accepted"
+        if op == "jwths" and o["ok"] and c.get("cp") and all(abs(int(c["cp"][f])) <= 2 ** 62 for f in ("iat", "exp")) \
+                and not jwt_time_ok(c["cp"], int(c["now"])):
+            return ("jwt-hs:accepted-outside-parsed-time",
+                    "a token was accepted outside the time window of the claims encoding/json parses from it")
         if op in ("jwtrs", "selfverify") and o["ok"] and txt((c.get("hp") or {}).get("alg", "")) != b"RS256":
             return "jwt-rs:accepted-other-alg", "a token whose header alg is not RS256 was accepted"
         if mu is None:
@@ -538,6 +542,17 @@ def run(ck):
             agg = ck.coverage["sweep_classes"][c["fam"]][c["class"]]
             agg[0] += c.get("n", 0)
             agg[1] += c.get("accepted", 0)
+            continue
+        if c["op"] == "jsonpin":
+            ck.count(c["stream"], key=(c["note"],))
+            if not c["obs"]["ok"]:
+                ck.violation("impl:json:leniency-changed:" + c["note"],
+                             "encoding/json into the jwt header/claims types now makes %r of %r (pinned: %r)" % (
+                                 txt(c.get("host", "")).decode("utf8", "replace"),
+                                 txt(c.get("data", "")).decode("utf8", "replace"),
+                                 txt(c.get("user", "")).decode("utf8", "replace")),
+                             {"case": c, "expected": txt(c.get("user", "")).decode("utf8", "replace"),
+                              "observed": txt(c.get("host", "")).decode("utf8", "replace")})
             continue
         if c["op"] == "passconc":
             ck.count(c["stream"], key=(c["note"], c.get("n", 0)))
